@@ -33,6 +33,22 @@ func (p verifXProfile) GetClaims() IClaims {
 	return &verifXClaims{P2Claims: P2Claims{Profile: &ep, SwComponents: &SwComponents[*SwComponent]{}, CanonicalProfile: p.name}}
 }
 
+// a second extension, derived from profile 1 (its profile member is psa-profile / key -75000)
+type verifX1Claims struct {
+	P1Claims
+	Extra *int64 `cbor:"-75100,keyasint,omitempty" json:"extra,omitempty"`
+}
+
+func (o *verifX1Claims) Validate() error { return ValidateClaims(o) }
+
+type verifX1Profile struct{ name string }
+
+func (p verifX1Profile) GetName() string { return p.name }
+func (p verifX1Profile) GetClaims() IClaims {
+	n := p.name
+	return &verifX1Claims{P1Claims: P1Claims{Profile: &n, SwComponents: &SwComponents[*SwComponent]{}, CanonicalProfile: p.name}}
+}
+
 // a claims type without an identifiable profile field
 type verifNoProfileClaims struct {
 	P1Claims2 int `cbor:"1,keyasint" json:"x"`
@@ -68,6 +84,7 @@ const (
 	verifP1Name = "PSA_IOT_PROFILE_1"
 	verifP2Name = "http://arm.com/psa/2.0.0"
 	verifXName  = "http://example.com/verif-ext"
+	verifX1Name = "VERIF_P1_DERIVED_PROFILE"
 )
 
 // verifKind: which implementation a claims object is (0 none, 1 profile 1, 2 profile 2, 3 extension)
@@ -79,14 +96,22 @@ func verifKind(c IClaims) int {
 		return 2
 	case *verifXClaims:
 		return 3
+	case *verifX1Claims:
+		return 4
 	}
 	return 0
 }
 
 func verifRegisterExtras() int {
-	n := ndConcrete(verifChoice("extras", 2))
+	n := ndConcrete(verifChoice("extras", 3))
+	ndAssume(n <= ndParam("maxextras", 2) && n >= ndParam("minextras", 0))
 	if n >= 1 {
 		if err := RegisterProfile(verifXProfile{verifXName}); err != nil {
+			ndAssert("c07-extra-registration", false)
+		}
+	}
+	if n >= 2 {
+		if err := RegisterProfile(verifX1Profile{verifX1Name}); err != nil {
 			ndAssert("c07-extra-registration", false)
 		}
 	}
@@ -104,17 +129,21 @@ func verifWantKind(p string, extras int) int {
 		if extras >= 1 {
 			return 3
 		}
+	case verifX1Name:
+		if extras >= 2 {
+			return 4
+		}
 	}
 	return 0
 }
 
-var verifProfileNames = [5]string{"", verifP1Name, verifP2Name, verifXName, "http://example.com/never-registered"}
+var verifProfileNames = [6]string{"", verifP1Name, verifP2Name, verifXName, "http://example.com/never-registered", verifX1Name}
 
 // verifPickProfileString: "", one of the three known names, or an arbitrary string.
 // (The choice is concretised and looked up in a table so that each path sees a CONSTANT
 // name: a function returning one of several strings would be merged into a symbolic one.)
 func verifPickProfileString(name string) string {
-	k := ndConcrete(verifChoice(name+".which", 5))
+	k := ndConcrete(verifChoice(name+".which", 6))
 	if k == 4 {
 		return ndString(name+".text", 26)
 	}
@@ -206,13 +235,17 @@ func VerifC07json() {
 	if psaKind == 1 && eatKind == 0 {
 		if psa == verifP1Name {
 			ndAssert("c07-json-psa-profile-dispatch", (err == nil && verifKind(c) == 1) || (err != nil && verifStub.ndErr))
+		} else if psa == verifX1Name && extras >= 2 {
+			ndAssert("c07-json-psa-profile-extension-dispatch", (err == nil && verifKind(c) == 4) || (err != nil && verifStub.ndErr))
 		} else {
 			ndAssert("c07-json-unregistered-profile-is-error", err != nil)
 		}
 	}
 	if eatKind == 1 && psaKind == 0 {
 		want := verifWantKind(eatp, extras)
-		if want >= 2 {
+		if want == 4 {
+			// the profile-1-derived extension's name under profile 2's member: no verdict
+		} else if want >= 2 {
 			ndAssert("c07-json-eat-profile-dispatch", (err == nil && verifKind(c) == want) || (err != nil && verifStub.ndErr))
 		} else {
 			ndAssert("c07-json-unregistered-profile-is-error", err != nil)
@@ -320,7 +353,7 @@ func VerifC16reg() {
 	mode := ndConcrete(verifChoice("register", 3))
 	switch mode {
 	case 0: // a name that may collide with a registered one
-		newName = verifProfileNames[ndConcrete(verifChoice("newname.which", 5))]
+		newName = verifProfileNames[ndConcrete(verifChoice("newname.which", 6))]
 		err = RegisterProfile(verifXProfile{newName})
 	case 1: // claims type without an identifiable profile field
 		newName = "http://example.com/no-profile-field"
@@ -342,7 +375,7 @@ func VerifC16reg() {
 	} else {
 		ndAssert("c16-registration-changes-only-its-own-name", probe == newName || after == before)
 		r := c16lookup(newName)
-		ndAssert("c16-registered-name-resolves", (r == 3 || r == 33) && len(profilesRegister) == nBefore+1)
+		ndAssert("c16-registered-name-resolves", (r == 3 || r == 33 || r == 30) && len(profilesRegister) == nBefore+1)
 	}
 	ndCover("c16-register-ok", err == nil)
 	ndCover("c16-register-collision", err != nil && mode == 0)
